@@ -26,12 +26,13 @@ CONSTANTS ReqX, ReqY, MaxGen,
 
 VARIABLES req, gen,
           bslot, bflag,            \* rewrite_bridge slot ("None"/"X"/"Y") and has_bridge flag
+          closed,                  \* X's listeners were cleared by the close path
           pc, loc, left,           \* per task: label, locals, operations left
           last,                    \* what the step just taken did (emissions, deliveries, allowances)
           hist
 
-vars == <<req, gen, bslot, bflag, pc, loc, left, last, hist>>
-view == <<req, gen, bslot, bflag, pc, loc, left>>
+vars == <<req, gen, bslot, bflag, closed, pc, loc, left, last, hist>>
+view == <<req, gen, bslot, bflag, closed, pc, loc, left>>
 
 Tr == {"X", "Y"}
 Task == {"snd", "rcv", "ctl"}
@@ -40,7 +41,7 @@ NoLoc == [op |-> "", slot |-> 0, tgt |-> "None", out |-> "", auth |-> "none", un
 Init ==
   /\ req \in [Tr -> BOOLEAN] /\ req["X"] \in ReqX /\ req["Y"] \in ReqY
   /\ gen = [t \in Tr |-> 0]
-  /\ bslot = "None" /\ bflag = FALSE
+  /\ bslot = "None" /\ bflag = FALSE /\ closed = FALSE
   /\ pc = [k \in Task |-> "idle"]
   /\ loc = [k \in Task |-> NoLoc]
   /\ left = [snd |-> NSnd, rcv |-> NRcv, ctl |-> NCtl]
@@ -86,18 +87,18 @@ SndStart(op) ==
           LET o == Decide("X", GateOf(op), gen["X"]) IN
           IF o = "" THEN Took("snd", op, "idle", NoLoc, <<>>, <<>>, "none", TRUE)
           ELSE Took("snd", op, "snd.emit", [NoLoc EXCEPT !.op = op, !.out = o], <<>>, <<>>, "none", TRUE)
-  /\ UNCHANGED <<req, gen, bslot, bflag>>
+  /\ UNCHANGED <<req, gen, bslot, bflag, closed>>
 
 SndSlotToEmit ==   \* send / send_rtp: gate on the snapshot, protect, transport.send
   /\ pc["snd"] = "snd.slot"
   /\ LET o == Decide("X", GateOf(loc["snd"].op), loc["snd"].slot) IN
      Took("snd", loc["snd"].op, "idle", NoLoc, Wire("X", o), <<>>, "none", FALSE)
-  /\ UNCHANGED <<req, gen, bslot, bflag>>
+  /\ UNCHANGED <<req, gen, bslot, bflag, closed>>
 
 SndEmit ==
   /\ pc["snd"] = "snd.emit"
   /\ Took("snd", loc["snd"].op, "idle", NoLoc, Wire("X", loc["snd"].out), <<>>, "none", FALSE)
-  /\ UNCHANGED <<req, gen, bslot, bflag>>
+  /\ UNCHANGED <<req, gen, bslot, bflag, closed>>
 
 ---------------------------------------------------------------------------
 (* rcv                                                                      *)
@@ -109,15 +110,15 @@ RcvStart(op, kind, auth) ==    \* slot read
   /\ Took("rcv", op, IF kind = "rtcp" THEN "rcv.rtcp_slot" ELSE "rcv.rtp_slot",
           [NoLoc EXCEPT !.op = op, !.slot = gen["X"], !.auth = auth,
                         !.unspec = (auth # "clear" /\ gen["X"] = 0 /\ ~req["X"])], <<>>, <<>>, "none", TRUE)
-  /\ UNCHANGED <<req, gen, bslot, bflag>>
+  /\ UNCHANGED <<req, gen, bslot, bflag, closed>>
 
 RcvRtcpGate ==   \* unprotect / gate on the snapshot, then the RTCP listener
   /\ pc["rcv"] = "rcv.rtcp_slot"
   /\ LET a == loc["rcv"].auth IN
-     IF AcceptOn(loc["rcv"].slot, a, "recv_rtcp")
+     IF AcceptOn(loc["rcv"].slot, a, "recv_rtcp") /\ ~closed
      THEN Took("rcv", loc["rcv"].op, "idle", NoLoc, <<>>, <<"rtcp">>, a, FALSE)
      ELSE Took("rcv", loc["rcv"].op, "idle", NoLoc, <<>>, <<>>, a, FALSE)
-  /\ UNCHANGED <<req, gen, bslot, bflag>>
+  /\ UNCHANGED <<req, gen, bslot, bflag, closed>>
 
 RcvRtpGate ==    \* unprotect / gate on the snapshot, ingress observers; parks before the bridge flag is read
   /\ pc["rcv"] = "rcv.rtp_slot"
@@ -125,15 +126,15 @@ RcvRtpGate ==    \* unprotect / gate on the snapshot, ingress observers; parks b
      IF AcceptOn(loc["rcv"].slot, a, "recv_rtp")
      THEN Took("rcv", loc["rcv"].op, "rcv.bridge", loc["rcv"], <<>>, <<"obs">>, a, FALSE)
      ELSE Took("rcv", loc["rcv"].op, "idle", NoLoc, <<>>, <<>>, a, FALSE)
-  /\ UNCHANGED <<req, gen, bslot, bflag>>
+  /\ UNCHANGED <<req, gen, bslot, bflag, closed>>
 
 RcvBridge ==     \* has_bridge, then the slot under its lock; otherwise demux to the listener
   /\ pc["rcv"] = "rcv.bridge"
   /\ LET a == loc["rcv"].auth IN
      IF bflag /\ bslot # "None"
      THEN Took("rcv", loc["rcv"].op, "rcv.target", [loc["rcv"] EXCEPT !.tgt = bslot], <<>>, <<>>, a, FALSE)
-     ELSE Took("rcv", loc["rcv"].op, "idle", NoLoc, <<>>, <<"lst">>, a, FALSE)
-  /\ UNCHANGED <<req, gen, bslot, bflag>>
+     ELSE Took("rcv", loc["rcv"].op, "idle", NoLoc, <<>>, IF closed THEN <<>> ELSE <<"lst">>, a, FALSE)
+  /\ UNCHANGED <<req, gen, bslot, bflag, closed>>
 
 RcvTarget ==     \* target's egress observers, then decision + protection under the target's slot lock
   /\ pc["rcv"] = "rcv.target"
@@ -142,12 +143,12 @@ RcvTarget ==     \* target's egress observers, then decision + protection under 
          o == Decide(t, "bridge", gen[t]) IN
      IF o = "" THEN Took("rcv", loc["rcv"].op, "idle", NoLoc, <<>>, <<"tobs">>, a, FALSE)
      ELSE Took("rcv", loc["rcv"].op, "rcv.emit", [loc["rcv"] EXCEPT !.out = o], <<>>, <<"tobs">>, a, FALSE)
-  /\ UNCHANGED <<req, gen, bslot, bflag>>
+  /\ UNCHANGED <<req, gen, bslot, bflag, closed>>
 
 RcvEmit ==
   /\ pc["rcv"] = "rcv.emit"
   /\ Took("rcv", loc["rcv"].op, "idle", NoLoc, Wire(loc["rcv"].tgt, loc["rcv"].out), <<"bridged">>, loc["rcv"].auth, FALSE)
-  /\ UNCHANGED <<req, gen, bslot, bflag>>
+  /\ UNCHANGED <<req, gen, bslot, bflag, closed>>
 
 ---------------------------------------------------------------------------
 (* ctl                                                                      *)
@@ -155,19 +156,34 @@ CtlKeys(op, t) ==
   /\ pc["ctl"] = "idle" /\ left["ctl"] > 0 /\ gen[t] < MaxGen
   /\ gen' = [gen EXCEPT ![t] = @ + 1]
   /\ Took("ctl", op, "idle", NoLoc, <<>>, <<>>, "none", TRUE)
-  /\ UNCHANGED <<req, bslot, bflag>>
+  /\ UNCHANGED <<req, bslot, bflag, closed>>
 
 CtlBridgeSlot(op, v) ==     \* *rewrite_bridge.lock() = ...
   /\ pc["ctl"] = "idle" /\ left["ctl"] > 0
   /\ bslot' = v
   /\ Took("ctl", op, "ctl.flag", [NoLoc EXCEPT !.op = op, !.tgt = v], <<>>, <<>>, "none", TRUE)
-  /\ UNCHANGED <<req, gen, bflag>>
+  /\ UNCHANGED <<req, gen, bflag, closed>>
 
 CtlBridgeFlag ==            \* has_bridge.store(...)
   /\ pc["ctl"] = "ctl.flag"
   /\ bflag' = (loc["ctl"].tgt # "None")
   /\ Took("ctl", loc["ctl"].op, "idle", NoLoc, <<>>, <<>>, "none", FALSE)
-  /\ UNCHANGED <<req, gen, bslot>>
+  /\ UNCHANGED <<req, gen, bslot, closed>>
+
+\* the close path of PeerConnection run by the control task: clear_listeners, then send_rtcp_sync (decision and
+\* protection under the slot's lock; the BYE leaves in a second step)
+CtlClose ==
+  /\ pc["ctl"] = "idle" /\ left["ctl"] > 0
+  /\ closed' = TRUE
+  /\ LET o == Decide("X", "sync_bye", gen["X"]) IN
+     IF o = "" THEN Took("ctl", "CL", "idle", NoLoc, <<>>, <<>>, "none", TRUE)
+     ELSE Took("ctl", "CL", "snd.emit", [NoLoc EXCEPT !.op = "CL", !.out = o], <<>>, <<>>, "none", TRUE)
+  /\ UNCHANGED <<req, gen, bslot, bflag>>
+
+CtlCloseEmit ==
+  /\ pc["ctl"] = "snd.emit"
+  /\ Took("ctl", "CL", "idle", NoLoc, Wire("X", loc["ctl"].out), <<>>, "none", FALSE)
+  /\ UNCHANGED <<req, gen, bslot, bflag, closed>>
 
 Next ==
   \/ \E op \in SndOps : SndStart(op)
@@ -178,6 +194,7 @@ Next ==
   \/ ("BX" \in CtlOps /\ CtlBridgeSlot("BX", "X")) \/ ("BY" \in CtlOps /\ CtlBridgeSlot("BY", "Y"))
   \/ ("B0" \in CtlOps /\ CtlBridgeSlot("B0", "None"))
   \/ CtlBridgeFlag
+  \/ ("CL" \in CtlOps /\ CtlClose) \/ CtlCloseEmit
 
 Spec == Init /\ [][Next]_vars
 
@@ -193,6 +210,6 @@ AllowedInside == [][ /\ \A i \in DOMAIN last'.w : last'.w[i].cls \in last'.aw[la
                      /\ \A t \in Tr : req[t] => (last'.aw[t] \subseteq {"protected"} /\ (gen[t] = 0 => last'.aw[t] = {})) ]_vars
 
 TypeOK ==
-  /\ gen \in [Tr -> 0..MaxGen] /\ bslot \in {"None", "X", "Y"} /\ bflag \in BOOLEAN
+  /\ gen \in [Tr -> 0..MaxGen] /\ bslot \in {"None", "X", "Y"} /\ bflag \in BOOLEAN /\ closed \in BOOLEAN
   /\ \A k \in Task : left[k] \in Nat
 =============================================================================
